@@ -148,28 +148,9 @@ Record obs := {
   o_first : graph;
   o_second : graph;
   o_sk : graph;        (* g1.skolemize().de_skolemize(), labels as in the case *)
-  o_undet : bool;      (* model only: the verdicts are not determined (region of FC14a); rdflib side: false *)
   o_skv : graph        (* g1.skolemize(authority=.., basepath=.., new_graph=.., bnode=..).de_skolemize() for a
                           basepath under /.well-known/genid/ : blank labels may be fresh *)
 }.
-
-(* Finding FC14a: a blank node in predicate position.  Color.distinguish puts
-   the predicate's own label ("_:x") into the colour of the subject/object, so
-   the "canonical" form depends on the labels.  The trigger is the whole region
-   of the defect where it can show: some triple of g1 or g2 has a blank-node
-   predicate and the graphs are isomorphic (on non-isomorphic graphs every verdict
-   must be False, blank predicates or not).  Inside the region rdflib's verdict is
-   NOT determined by any model short of SHA-256 itself: _refine stops as soon as
-   the colouring is discrete, and whether the leaking triple has been looked at by
-   then depends on the ORDER of the hash values (the executable canonicaliser
-   model with its own hash answers False where rdflib answers True and vice
-   versa).  The expected observation therefore carries [o_undet] there and
-   [obs_eqb] does not compare verdicts; the checker still judges rdflib's answer. *)
-Definition has_bpred (g : graph) : bool :=
-  existsb (fun t : triple => match snd (fst t) with Blank _ => true | Const _ => false end) g.
-
-Definition kf (c : case) : N :=
-  if (has_bpred (c_g1 c) || has_bpred (c_g2 c)) && iso_dec (c_g1 c) (c_g2 c) then 1%N else 0%N.
 
 Definition maxblank (g : graph) : N := fold_left N.max (blanks g) 0%N.
 Definition shift_g (k : N) (g : graph) : graph := rename_g (fun x => (x + k)%N) g.
@@ -185,7 +166,7 @@ Definition model_obs_with (i : bool) (c : case) : obs :=
   {| o_iso := i; o_toiso := i; o_caneq := i; o_alt1 := i; o_alt2 := i;
      o_cg1 := cg1; o_cg2 := cg2;
      o_both := g_inter cg1 cg2; o_first := g_diff cg1 cg2; o_second := g_diff cg2 cg1;
-     o_sk := g1; o_undet := negb (N.eqb (kf c) 0); o_skv := g1 |}.
+     o_sk := g1; o_skv := g1 |}.
 
 Definition model_obs (c : case) : obs := model_obs_with (iso_dec (c_g1 c) (c_g2 c)) c.
 
@@ -194,13 +175,12 @@ Definition isnil (g : graph) : bool := match g with [] => true | _ => false end.
 (* agreement of two observations on everything the model determines (that the
    canonical graphs are relabellings of the inputs is the checker's business) *)
 Definition obs_eqb (a b : obs) : bool :=
-  (if o_undet a || o_undet b then true else
-   Bool.eqb (o_iso a) (o_iso b) && Bool.eqb (o_toiso a) (o_toiso b) && Bool.eqb (o_caneq a) (o_caneq b)
-   && Bool.eqb (o_alt1 a) (o_alt1 b) && Bool.eqb (o_alt2 a) (o_alt2 b)
-   && (if o_iso a then Nat.eqb (length (o_both a)) (length (o_both b))
-                       && Bool.eqb (isnil (o_first a)) (isnil (o_first b))
-                       && Bool.eqb (isnil (o_second a)) (isnil (o_second b))
-       else true))
+  Bool.eqb (o_iso a) (o_iso b) && Bool.eqb (o_toiso a) (o_toiso b) && Bool.eqb (o_caneq a) (o_caneq b)
+  && Bool.eqb (o_alt1 a) (o_alt1 b) && Bool.eqb (o_alt2 a) (o_alt2 b)
+  && (if o_iso a then Nat.eqb (length (o_both a)) (length (o_both b))
+                      && Bool.eqb (isnil (o_first a)) (isnil (o_first b))
+                      && Bool.eqb (isnil (o_second a)) (isnil (o_second b))
+      else true)
   && gseteqb (o_sk a) (o_sk b).
 
 (* The specification, as a checker over what was observed, written against
